@@ -88,6 +88,7 @@ const (
 	RtcpPacketTypeApp = 204
 
 	RtcpHeaderLength = 4
+	RtcpSrMinLength  = 28 // header + sender ssrc + sender info
 
 	RtcpVersion = 2
 )
@@ -111,6 +112,9 @@ type Sr struct {
 
 func ParseRtcpHeader(b []byte) RtcpHeader {
 	var h RtcpHeader
+	if len(b) < RtcpHeaderLength {
+		return h
+	}
 	h.Version = b[0] >> 6
 	h.Padding = (b[0] >> 5) & 0x1
 	h.CountOrFormat = b[0] & 0x1F
@@ -124,6 +128,9 @@ func ParseRtcpHeader(b []byte) RtcpHeader {
 // @param b rtcp包，包含包头
 func ParseSr(b []byte) Sr {
 	var s Sr
+	if len(b) < RtcpSrMinLength {
+		return s
+	}
 	s.SenderSsrc = bele.BeUint32(b[4:])
 	s.Msw = bele.BeUint32(b[8:])
 	s.Lsw = bele.BeUint32(b[12:])
